@@ -24,6 +24,297 @@ func c17(r *core.Report) {
 	c17Servers(r)
 	c17Complete(r)
 	scratchEscapes(r, "C17.fresh", 1, "openapi2conv")
+	c17Required(r)
+	c17SubRefs(r)
+}
+
+// c17Required: what the target version's Validate refuses to find nil, the converter always gives.
+func c17Required(r *core.Report) {
+	p := r.Prog
+	info := p.Pkg("openapi2conv").TypesInfo
+	r.RunRule("C17.required", "the converted object passes the check its own Validate makes for a missing field: for every model struct T of openapi3/openapi2 whose Validate returns an error under `recv.F == nil`, each composite literal of T in package openapi2conv gives F a value that is not nil (make, a literal, an address), in the literal or by an assignment in the same block — a field filled only when the source has entries (`if len(x) != 0 { t.F = ... }`) turns a valid source with an empty collection into a target its Validate rejects", 1, func() {
+		type req struct {
+			t *types.Named
+			f string
+		}
+		var reqs []req
+		for _, rel := range []string{"openapi3", "openapi2"} {
+			pinfo := p.Pkg(rel).TypesInfo
+			for _, d := range p.AllDecls(rel) {
+				if d.Body == nil || d.Recv == nil || d.Name.Name != "Validate" {
+					continue
+				}
+				recv := recvObj(pinfo, d)
+				if recv == nil {
+					continue
+				}
+				rn := core.NamedOf(recv.Type())
+				if rn == nil || core.StructOf(rn) == nil {
+					continue
+				}
+				for _, st := range d.Body.List {
+					ifs, ok := st.(*ast.IfStmt)
+					if !ok || ifs.Init != nil || len(ifs.Body.List) != 1 {
+						continue
+					}
+					be, ok := ast.Unparen(ifs.Cond).(*ast.BinaryExpr)
+					if !ok || be.Op != token.EQL || !core.IsNil(pinfo, be.Y) {
+						continue
+					}
+					sel, ok := ast.Unparen(be.X).(*ast.SelectorExpr)
+					if !ok {
+						continue
+					}
+					if id, ok := ast.Unparen(sel.X).(*ast.Ident); !ok || pinfo.ObjectOf(id) != recv {
+						continue
+					}
+					if ret, ok := ifs.Body.List[0].(*ast.ReturnStmt); ok && len(ret.Results) > 0 && !core.IsNil(pinfo, ret.Results[len(ret.Results)-1]) {
+						reqs = append(reqs, req{rn, sel.Sel.Name})
+					}
+				}
+			}
+		}
+		if len(reqs) == 0 {
+			core.Fail("no `recv.F == nil` rejection found in any Validate (OAuthFlow.Scopes expected)")
+		}
+		nonNil := func(e ast.Expr) bool {
+			switch x := ast.Unparen(e).(type) {
+			case *ast.CompositeLit:
+				return true
+			case *ast.UnaryExpr:
+				return x.Op == token.AND
+			case *ast.CallExpr:
+				if id, ok := ast.Unparen(x.Fun).(*ast.Ident); ok && id.Name == "make" {
+					return true
+				}
+			}
+			return false
+		}
+		n := 0
+		for _, d := range p.AllDecls("openapi2conv") {
+			if d.Body == nil {
+				continue
+			}
+			ff := core.NewFuncFacts(p, info, d)
+			perFn := 0
+			ast.Inspect(d.Body, func(nd ast.Node) bool {
+				cl, ok := nd.(*ast.CompositeLit)
+				if !ok {
+					return true
+				}
+				tn := core.NamedOf(info.TypeOf(cl))
+				for _, rq := range reqs {
+					if tn != rq.t {
+						continue
+					}
+					n++
+					perFn++
+					key := fmt.Sprintf("required:%s/%s.%s#%d", core.FuncName(d), rq.t.Obj().Name(), rq.f, perFn)
+					ok := false
+					for _, e := range cl.Elts {
+						if kv, isKV := e.(*ast.KeyValueExpr); isKV {
+							if id, isID := kv.Key.(*ast.Ident); isID && id.Name == rq.f {
+								v := ast.Unparen(kv.Value)
+								if nonNil(v) {
+									ok = true
+								} else if vid, isID := v.(*ast.Ident); isID {
+									as := ff.Assigns(info.ObjectOf(vid))
+									if len(as) == 1 && as[0].Rhs != nil && nonNil(as[0].Rhs) {
+										ok = true
+									}
+								}
+							}
+						}
+					}
+					if !ok {
+						// given later through the variable holding the object: `holder.F = <non-nil>` or a
+						// method of the object that assigns F, under no other condition than the presence
+						// (`!= nil`) of something in the source
+						var holder types.Object
+						for _, nn := range core.PathTo(d.Body, cl) {
+							if as, isAs := nn.(*ast.AssignStmt); isAs && len(as.Lhs) == 1 {
+								if id, isID := ast.Unparen(as.Lhs[0]).(*ast.Ident); isID {
+									holder = info.ObjectOf(id)
+								}
+							}
+						}
+						own := map[string]bool{}
+						for _, a := range core.Atoms(core.GuardsAt(info, d.Body, cl)) {
+							own[core.ExprStr(a.Expr)] = true
+						}
+						presenceOnly := func(at ast.Node) bool {
+							for _, a := range core.Atoms(core.GuardsAt(info, d.Body, at)) {
+								if own[core.ExprStr(a.Expr)] {
+									continue
+								}
+								be, isBin := ast.Unparen(a.Expr).(*ast.BinaryExpr)
+								if !isBin || !core.IsNil(info, be.Y) || !((be.Op == token.NEQ && a.Pos) || (be.Op == token.EQL && !a.Pos)) {
+									return false
+								}
+							}
+							return true
+						}
+						if holder != nil {
+							ast.Inspect(d.Body, func(m ast.Node) bool {
+								switch x := m.(type) {
+								case *ast.AssignStmt:
+									if len(x.Lhs) == 1 && len(x.Rhs) == 1 && x.Pos() > cl.Pos() {
+										if sel, isSel := ast.Unparen(x.Lhs[0]).(*ast.SelectorExpr); isSel && sel.Sel.Name == rq.f {
+											if id, isID := ast.Unparen(sel.X).(*ast.Ident); isID && info.ObjectOf(id) == holder && nonNil(x.Rhs[0]) && presenceOnly(x) {
+												ok = true
+											}
+										}
+									}
+								case *ast.CallExpr:
+									sel, isSel := ast.Unparen(x.Fun).(*ast.SelectorExpr)
+									if !isSel || x.Pos() < cl.Pos() {
+										return true
+									}
+									if id, isID := ast.Unparen(sel.X).(*ast.Ident); !isID || info.ObjectOf(id) != holder {
+										return true
+									}
+									if callee := core.CalleeOf(info, x); callee != nil && core.InRepo(callee.Pkg()) && methodAssignsField(p, callee, rq.f) && presenceOnly(x) {
+										ok = true
+									}
+								}
+								return true
+							})
+						}
+					}
+					r.Check(ok, key, p.Pos(cl.Pos()), rq.f+" is always given", fmt.Sprintf("%s builds a %s whose %s is not given on every path (only under a condition, or from a value that can be nil): %s.Validate rejects the converted document with a nil %s although the source was valid", core.FuncName(d), rq.t.Obj().Name(), rq.f, rq.t.Obj().Name(), rq.f))
+				}
+				return true
+			})
+		}
+		if n == 0 {
+			core.Fail("no literal of a type with a required field in openapi2conv")
+		}
+	})
+}
+
+// methodAssignsField: the method's body assigns the field of its receiver (a With* setter).
+func methodAssignsField(p *core.Prog, m *types.Func, field string) bool {
+	d := p.Decl(m)
+	if d == nil || d.Body == nil {
+		return false
+	}
+	info := p.InfoFor(m.Pkg())
+	recv := recvObj(info, d)
+	found := false
+	ast.Inspect(d.Body, func(n ast.Node) bool {
+		if as, ok := n.(*ast.AssignStmt); ok {
+			for _, l := range as.Lhs {
+				if sel, ok := ast.Unparen(l).(*ast.SelectorExpr); ok && sel.Sel.Name == field {
+					if id, ok := ast.Unparen(sel.X).(*ast.Ident); ok && info.ObjectOf(id) == recv {
+						found = true
+					}
+				}
+			}
+		}
+		return true
+	})
+	return found
+}
+
+// c17SubRefs: a function that rewrites the references of a schema written the OpenAPI 3 way visits
+// every place of that schema which can hold one.
+func c17SubRefs(r *core.Report) {
+	p := r.Prog
+	info := p.Pkg("openapi2conv").TypesInfo
+	r.RunRule("C17.subrefs", "references are rewritten at every depth: a function of openapi2conv that takes an *openapi3.SchemaRef, rewrites its Ref and copies its Value (the additionalProperties schema, which is kept the OpenAPI 3 way in both versions) mentions every field of openapi3.Schema that can hold a schema reference (Items, Properties, AdditionalProperties, Not, OneOf, AnyOf, AllOf) — a field it does not descend into keeps references of the other version, which do not resolve", 1, func() {
+		schemaT := p.NamedType("openapi3", "Schema")
+		refT := p.NamedType("openapi3", "SchemaRef")
+		st := schemaT.Underlying().(*types.Struct)
+		var holders []string
+		var reaches func(t types.Type, depth int) bool
+		reaches = func(t types.Type, depth int) bool {
+			if depth > 4 {
+				return false
+			}
+			switch x := t.(type) {
+			case *types.Pointer:
+				return reaches(x.Elem(), depth+1)
+			case *types.Named:
+				if x == refT {
+					return true
+				}
+				if s, ok := x.Underlying().(*types.Struct); ok && x != schemaT && core.InRepo(x.Obj().Pkg()) {
+					for i := 0; i < s.NumFields(); i++ {
+						if reaches(s.Field(i).Type(), depth+1) {
+							return true
+						}
+					}
+					return false
+				}
+				return reaches(x.Underlying(), depth+1)
+			case *types.Map:
+				return reaches(x.Elem(), depth+1)
+			case *types.Slice:
+				return reaches(x.Elem(), depth+1)
+			}
+			return false
+		}
+		for i := 0; i < st.NumFields(); i++ {
+			if f := st.Field(i); f.Exported() && reaches(f.Type(), 0) {
+				holders = append(holders, f.Name())
+			}
+		}
+		if len(holders) < 7 {
+			core.Fail("only %d reference-holding fields of openapi3.Schema found: %v", len(holders), holders)
+		}
+		n := 0
+		for _, d := range p.AllDecls("openapi2conv") {
+			if d.Body == nil || len(d.Type.Params.List) == 0 {
+				continue
+			}
+			takesRef := false
+			for _, f := range d.Type.Params.List {
+				if pt, ok := info.TypeOf(f.Type).(*types.Pointer); ok && core.NamedOf(pt.Elem()) == refT {
+					takesRef = true
+				}
+			}
+			if !takesRef {
+				continue
+			}
+			// rewrites Ref (an assignment to a .Ref of a SchemaRef) and copies the value (`v := *from.Value`)
+			writesRef, copiesValue := false, false
+			mentioned := map[string]bool{}
+			ast.Inspect(d.Body, func(nd ast.Node) bool {
+				switch x := nd.(type) {
+				case *ast.AssignStmt:
+					for _, l := range x.Lhs {
+						if sel, ok := ast.Unparen(l).(*ast.SelectorExpr); ok && sel.Sel.Name == "Ref" && core.NamedOf(info.TypeOf(sel.X)) == refT {
+							writesRef = true
+						}
+					}
+					for _, rh := range x.Rhs {
+						if st, ok := ast.Unparen(rh).(*ast.StarExpr); ok && core.NamedOf(info.TypeOf(st)) == schemaT {
+							copiesValue = true
+						}
+					}
+				case *ast.SelectorExpr:
+					if f := core.FieldSel(info, x); f != nil && core.NamedOf(info.TypeOf(x.X)) == schemaT {
+						mentioned[f.Name()] = true
+					}
+				}
+				return true
+			})
+			if !writesRef || !copiesValue {
+				continue
+			}
+			n++
+			var missing []string
+			for _, h := range holders {
+				if !mentioned[h] {
+					missing = append(missing, h)
+				}
+			}
+			r.Check(len(missing) == 0, "subrefs:"+core.FuncName(d), p.Pos(d.Pos()), fmt.Sprintf("all %d reference-holding fields are visited", len(holders)), fmt.Sprintf("%s rewrites the reference of a schema and copies its value but never touches %s: references below those keep the other version's form (`#/definitions/...` in an OpenAPI 3 document) and the converted document does not resolve", core.FuncName(d), strings.Join(missing, ", ")))
+		}
+		if n == 0 {
+			core.Fail("no reference-rewriting schema copier found in openapi2conv")
+		}
+	})
 }
 
 // c17Counterparts: which source struct (other specification version) a target struct literal is a
